@@ -24,6 +24,7 @@ import (
 	"go.minekube.com/gate/pkg/edition/java/proto/state"
 	"go.minekube.com/gate/pkg/edition/java/proxy/zzverif/refbungee"
 	"go.minekube.com/gate/pkg/edition/java/proxy/zzverif/vrt"
+	"go.minekube.com/gate/pkg/gate/proto"
 	"go.minekube.com/gate/pkg/util/uuid"
 )
 
@@ -32,6 +33,7 @@ type c26Peer struct {
 	player  *connectedPlayer
 	client  *g7Conn
 	backend *g7Conn // nil when the player has no current server
+	sc      *serverConnection
 }
 
 type c26World struct {
@@ -51,8 +53,26 @@ func c26Plain(c component.Component) string {
 	return sb.String()
 }
 
-func c26Build(st *refbungee.State) *c26World {
+func c26Build(st *refbungee.State) *c26World { return c26BuildVariant(st, "") }
+
+// c26Dead parses the variant "dead:<name>,<name>": players whose backend connection has died without the
+// proxy having noticed yet (the player is still listed on its server; writes fail with ErrClosedConn).
+func c26Dead(variant string) map[string]bool {
+	dead := map[string]bool{}
+	if rest, ok := strings.CutPrefix(variant, "dead:"); ok {
+		for _, n := range strings.Split(rest, ",") {
+			dead[n] = true
+		}
+	}
+	return dead
+}
+
+func c26BuildVariant(st *refbungee.State, variant string) *c26World {
 	cw := &c26World{w: g7NewWorld()}
+	if variant == "disabled" {
+		cw.w.Cfg.BungeePluginChannelEnabled = false
+	}
+	dead := c26Dead(variant)
 	servers := map[string]*registeredServer{}
 	for _, s := range st.Servers {
 		servers[s.Name] = cw.w.server(s.Name, net.ParseIP(s.Host), s.Port)
@@ -67,12 +87,15 @@ func c26Build(st *refbungee.State) *c26World {
 		peer.client.remote = &net.TCPAddr{IP: net.ParseIP(p.Host), Port: p.Port}
 		peer.player = cw.w.player(p.Name, id, peer.client, true)
 		if p.Server != "" {
-			proto := g7Legacy
+			ver := g7Legacy
 			if p.Modern {
-				proto = g7Modern
+				ver = g7Modern
 			}
-			peer.backend = g7NewConn("backend:"+p.Name, proto, state.Play)
-			g7Connect(peer.player, servers[p.Server], peer.backend)
+			peer.backend = g7NewConn("backend:"+p.Name, ver, state.Play)
+			peer.sc = g7Connect(peer.player, servers[p.Server], peer.backend)
+			if dead[p.Name] {
+				peer.backend.cancel()
+			}
 		}
 		cw.peers = append(cw.peers, peer)
 	}
@@ -94,6 +117,7 @@ type c26Observed struct {
 	kick          []refbungee.Effect
 	connect       []refbungee.Effect
 	other         []string
+	relayed       []string // raw payloads written to a client connection (a backend packet passed on unchanged)
 }
 
 func (cw *c26World) observe() *c26Observed {
@@ -109,6 +133,10 @@ func (cw *c26World) observe() *c26Observed {
 			}
 		}
 		for _, w := range p.client.writes {
+			if w.Kind == "raw" || w.Kind == "rawbuf" {
+				o.relayed = append(o.relayed, fmt.Sprintf("client of %s: %s", p.def.Name, hex.EncodeToString(w.Raw)))
+				continue
+			}
 			switch pk := w.Pkt.(type) {
 			case *plugin.Message:
 				if isBungeeChannel(pk.Channel) {
@@ -148,21 +176,79 @@ func canon(es []refbungee.Effect) string { return strings.Join(refbungee.Canon(e
 
 // c26AdapterCheck runs one request through the real adapter. Must be called inside a synctest bubble.
 func c26AdapterCheck(st *refbungee.State, req refbungee.Request) (fails []c26Fail, class string, want []refbungee.Effect, defined bool) {
+	return c26AdapterCheckVariant(st, req, "")
+}
+
+// c26AdapterCheckVariant: variant
+//
+//	""          the responder newBungeeCordMessageResponder(true, ...) is called directly
+//	"handler"   the request arrives as a backend packet at the REAL backendPlaySessionHandler built by
+//	            newBackendPlaySessionHandler (config flag wiring, consumed-or-relayed decision included)
+//	"disabled"  the same with bungeePluginChannelEnabled=false in the config: no BungeeCord behaviour at all
+//	"dead:a,b"  direct, the backend connections of players a, b are dead (see c26Dead): what can only travel
+//	            over a dead connection is not expected; a forward to a server is expected exactly once as
+//	            long as ONE live connection to it exists
+func c26AdapterCheckVariant(st *refbungee.State, req refbungee.Request, variant string) (fails []c26Fail, class string, want []refbungee.Effect, defined bool) {
 	requester := st.Players[0].Name
 	want, class, defined = refbungee.Eval(st, requester, req.Payload)
-	cw := c26Build(st)
+	dead := c26Dead(variant)
+	if len(dead) > 0 {
+		var w2 []refbungee.Effect
+		for _, e := range want {
+			switch e.Kind {
+			case refbungee.Response:
+				if dead[e.Player] {
+					continue
+				}
+			case refbungee.Forward:
+				alive := false
+				for _, p := range st.Players {
+					if p.Server == e.Server && !dead[p.Name] {
+						alive = true
+					}
+				}
+				if !alive {
+					continue
+				}
+			}
+			w2 = append(w2, e)
+		}
+		want = w2
+	}
+	if variant == "disabled" {
+		want = nil
+	}
+	cw := c26BuildVariant(st, variant)
 	me := cw.peers[0]
-	resp := newBungeeCordMessageResponder(true, me.player, cw.w.Proxy)
 	ch := refbungee.LegacyChannel
 	if me.def.Modern {
 		ch = refbungee.ModernChannel
 	}
-	panicked, pv := vrt.Catch(func() {
-		resp.Process(&plugin.Message{Channel: ch, Data: append([]byte(nil), req.Payload...)})
-	})
+	msg := &plugin.Message{Channel: ch, Data: append([]byte(nil), req.Payload...)}
+	var call func()
+	const rawMarker = "\x7frelayed-backend-packet"
+	if variant == "handler" || variant == "disabled" {
+		if me.sc == nil {
+			return nil, class, want, false // a backend packet needs a backend connection
+		}
+		me.client.handler = newClientPlaySessionHandler(me.player)
+		h, err := newBackendPlaySessionHandler(me.sc)
+		if err != nil {
+			panic(err)
+		}
+		pc := &proto.PacketContext{Direction: proto.ClientBound, Protocol: me.backend.protocol, PacketID: 0x18, Packet: msg, Payload: []byte(rawMarker)}
+		call = func() { h.HandlePacket(pc) }
+	} else {
+		resp := newBungeeCordMessageResponder(true, me.player, cw.w.Proxy)
+		call = func() { resp.Process(msg) }
+	}
+	panicked, pv := vrt.Catch(call)
 	synctest.Wait()
 	sc := "adapter:" + c26Scenario(class)
-	head := fmt.Sprintf("request %q (%s) payload %s\nstate %s\n", req.Label, class, hex.EncodeToString(req.Payload), refbungee.Describe(st))
+	if variant == "disabled" {
+		sc = "adapter-disabled"
+	}
+	head := fmt.Sprintf("request %q (%s) payload %s\nstate %s variant=%q\n", req.Label, class, hex.EncodeToString(req.Payload), refbungee.Describe(st), variant)
 	if panicked {
 		return []c26Fail{{sc + "/panic", head + fmt.Sprintf("panic: %v", pv)}}, class, want, defined
 	}
@@ -170,6 +256,9 @@ func c26AdapterCheck(st *refbungee.State, req refbungee.Request) (fails []c26Fai
 		return nil, class, want, defined
 	}
 	o := cw.observe()
+	if variant == "handler" && len(o.relayed) > 0 {
+		fails = append(fails, c26Fail{sc + "/request-relayed-to-client", head + "a well-formed BungeeCord request was passed on to the client:\n  " + strings.Join(o.relayed, "\n  ")})
+	}
 	by := func(k string) []refbungee.Effect {
 		var out []refbungee.Effect
 		for _, e := range want {
@@ -295,7 +384,57 @@ type c26AdapterReplay struct {
 	Mode    string          `json:"mode"`
 	State   refbungee.State `json:"state"`
 	Payload string          `json:"payload_hex"`
+	Variant string          `json:"variant,omitempty"`
 }
+
+// c26DeadVariants: every non-empty set of NON-requesting players that have a current server.
+func c26DeadVariants(st *refbungee.State) []string {
+	var cand []string
+	for _, p := range st.Players[1:] {
+		if p.Server != "" {
+			cand = append(cand, p.Name)
+		}
+	}
+	var out []string
+	for mask := 1; mask < 1<<len(cand); mask++ {
+		var names []string
+		for i, n := range cand {
+			if mask&(1<<i) != 0 {
+				names = append(names, n)
+			}
+		}
+		out = append(out, "dead:"+strings.Join(names, ","))
+	}
+	return out
+}
+
+// c26MixedForward: the request must be forwarded to a server to which both dead and live connections exist.
+// Which connection the proxy tries first follows Go's map iteration order; such a case is repeated so that
+// both orders are seen (the expected outcome does not depend on the order).
+func c26MixedForward(st *refbungee.State, want []refbungee.Effect, variant string) bool {
+	dead := c26Dead(variant)
+	for _, e := range want {
+		if e.Kind != refbungee.Forward {
+			continue
+		}
+		d, a := false, false
+		for _, p := range st.Players {
+			if p.Server == e.Server {
+				if dead[p.Name] {
+					d = true
+				} else {
+					a = true
+				}
+			}
+		}
+		if d && a {
+			return true
+		}
+	}
+	return false
+}
+
+const c26MixedRepeats = 12
 
 func TestVerif(t *testing.T) {
 	vrt.Run(t, "C26", func(r *vrt.R) {
@@ -303,15 +442,25 @@ func TestVerif(t *testing.T) {
 			var rc c26AdapterReplay
 			if r.ReplayInto(&rc) {
 				payload, _ := hex.DecodeString(rc.Payload)
-				fails, _, _, _ := c26AdapterCheck(&rc.State, refbungee.Request{Label: "replay", Payload: payload})
-				r.Eval(1)
-				for _, f := range fails {
-					r.Violation(f.key, f.desc, rc)
+				seen := map[string]bool{}
+				for n := 0; n < c26MixedRepeats; n++ {
+					fails, _, want, _ := c26AdapterCheckVariant(&rc.State, refbungee.Request{Label: "replay", Payload: payload}, rc.Variant)
+					r.Eval(1)
+					for _, f := range fails {
+						if !seen[f.key] {
+							seen[f.key] = true
+							r.Violation(f.key, f.desc, rc)
+						}
+					}
+					if !c26MixedForward(&rc.State, want, rc.Variant) {
+						break
+					}
 				}
 				return
 			}
 			sts := refbungee.States(3)
 			reqs := refbungee.Requests(r.Thorough(), r.Thorough())
+			wellFormed := refbungee.Requests(false, false)
 			classes := map[string]int{}
 			for si := range sts {
 				if !r.Mine(si) {
@@ -330,6 +479,32 @@ func TestVerif(t *testing.T) {
 					}
 					for _, f := range fails {
 						r.Violation(f.key, f.desc, c26AdapterReplay{Mode: "adapter", State: *st, Payload: hex.EncodeToString(req.Payload)})
+					}
+				}
+				// further variants (see c26AdapterCheckVariant) over the well-formed requests
+				variants := append([]string{"handler", "disabled"}, c26DeadVariants(st)...)
+				for _, variant := range variants {
+					vclass := variant
+					if strings.HasPrefix(variant, "dead:") {
+						vclass = "dead-backend-connections"
+					}
+					for _, req := range wellFormed {
+						reps := 1
+						for n := 0; n < reps; n++ {
+							fails, class, want, defined := c26AdapterCheckVariant(st, req, variant)
+							r.Eval(1)
+							classes["adapter("+vclass+"):"+class]++
+							if n == 0 && defined && (len(want) > 0 || variant == "disabled") {
+								r.Distinct("adapter|" + variant + "|" + refbungee.Describe(st) + "|" + string(req.Payload))
+							}
+							for _, f := range fails {
+								r.Violation(f.key, f.desc, c26AdapterReplay{Mode: "adapter", State: *st, Payload: hex.EncodeToString(req.Payload), Variant: variant})
+							}
+							if n == 0 && c26MixedForward(st, want, variant) {
+								reps = c26MixedRepeats
+								classes["adapter(dead-backend-connections):forward-over-mixed-dead-and-live-connections"]++
+							}
+						}
 					}
 				}
 			}
